@@ -3,6 +3,7 @@
 // searches per engine process; validity predicates via refchess over the
 // transcript.  See DESIGN.md §3 C03.
 #include "common/vh.hpp"
+#include <map>
 #include "common/gen.hpp"
 #include "common/uci.hpp"
 #include <algorithm>
@@ -193,12 +194,24 @@ void tbFollowUp(Choices& c, Case& k) {
 }
 
 // ---- validation -------------------------------------------------------------------
-std::string validate(const SearchCase& s, const std::vector<std::string>& lines, const std::string& best) {
+std::string validate(const SearchCase& s, const std::vector<std::string>& lines, const std::string& best, const std::map<std::string, std::string>& opt = {}) {
     ref::Pos root;
     if (!ref::fromFEN(s.fen, root)) return "";
     for (auto& u : s.moves) root = ref::make(root, ref::Move::fromUci(u));
     std::vector<ref::Move> lm = ref::legalMoves(root);
     auto inSearchMoves = [&](const std::string& u) { return s.searchMoves.empty() || std::find(s.searchMoves.begin(), s.searchMoves.end(), u) != s.searchMoves.end(); };
+    // Multi-PV bookkeeping: the engine numbers its lines (field `multipv k`) exactly when it searches more than one root move
+    // for the report, i.e. min(MultiPV, number of root moves) > 1, the same for every line of one search.  The number of root
+    // moves is known to us (= legal moves within searchmoves) unless strength limiting or a tablebase answer at the root
+    // (only possible for pawnless <= 4-man roots without configured tablebases) may have removed root moves.
+    auto optOf = [&](const char* n, const char* def) { auto it = opt.find(n); return it == opt.end() ? std::string(def) : it->second; };
+    int rootMovesKnown = 0;
+    for (auto& m : lm) if (inSearchMoves(m.uci())) rootMovesKnown++;
+    bool pawns = root.count('P') + root.count('p') > 0;
+    const bool reduced = atoi(optOf("strength", "1000").c_str()) < 1000 || optOf("uci_limitstrength", "false") == "true";
+    const bool mustNumber = !opt.empty() && atoi(optOf("multipv", "1").c_str()) >= 2 && rootMovesKnown >= 2 && !reduced && (pawns || root.men() > 4);
+    int numbered = 0, unnumbered = 0;
+    std::string firstUnnumbered, firstNumbered;
     // info lines
     int lastMpv = 0;
     std::set<std::string> reportFirst;
@@ -217,12 +230,15 @@ std::string validate(const SearchCase& s, const std::vector<std::string>& lines,
             if (i == 0 && !inSearchMoves(inf.pv[0])) return "pv starts with a move outside searchmoves: '" + l + "'";
             p = ref::make(p, m);
         }
+        if (inf.multipv > 0) { if (!numbered++) firstNumbered = l; } else { if (!unnumbered++) firstUnnumbered = l; }
         if (inf.multipv > 0) {
             if (inf.multipv <= lastMpv) reportFirst.clear();
             lastMpv = inf.multipv;
             if (!inf.pv.empty() && !reportFirst.insert(inf.pv[0]).second) return "two lines of one multi-PV report start with " + inf.pv[0] + ": '" + l + "'";
         } else { lastMpv = 0; reportFirst.clear(); }
     }
+    if (numbered && unnumbered) return "pv lines with and without a multipv number in one search: '" + firstNumbered.substr(0, 120) + "' and '" + firstUnnumbered.substr(0, 120) + "'";
+    if (mustNumber && unnumbered) return "MultiPV " + optOf("multipv", "1") + " and " + std::to_string(rootMovesKnown) + " root moves, but a pv line carries no multipv number: '" + firstUnnumbered.substr(0, 160) + "'";
     std::vector<std::string> t = uci::split(best);
     if (t.size() < 2 || t[0] != "bestmove") return "no bestmove line";
     if (lm.empty()) { if (t[1] != "0000") return "position without legal moves but bestmove " + t[1]; return ""; }
@@ -247,9 +263,18 @@ std::string runCase(const Case& k, vh::Stats& st, bool& inconclusive, std::strin
     if (e.waitLine("uciok", 30000) < 0) { inconclusive = true; return ""; }
     std::string err;
     int idx = 0;
+    std::map<std::string, std::string> opt{{"multipv", "1"}};   // option state of the process (lower-case names)
     for (const SearchCase& s : k.s) {
         idx++;
-        for (auto& o : s.setopts) e.send(o);
+        for (auto& o : s.setopts) {
+            e.send(o);
+            size_t a = o.find("name "), b = o.find(" value ");
+            if (a != std::string::npos && b != std::string::npos && b > a) {
+                std::string n = o.substr(a + 5, b - a - 5), v = o.substr(b + 7);
+                for (auto& ch : n) ch = (char)tolower((unsigned char)ch);
+                opt[n] = v;
+            }
+        }
         if (s.newGame) e.send("ucinewgame");
         std::string pos = "position fen " + s.fen;
         if (!s.moves.empty()) { pos += " moves"; for (auto& m : s.moves) pos += " " + m; }
@@ -276,7 +301,7 @@ std::string runCase(const Case& k, vh::Stats& st, bool& inconclusive, std::strin
         }
         std::vector<std::string> lines;
         for (size_t i = from; i < (size_t)bi; i++) if (e.log[i].dir == '<') lines.push_back(e.log[i].line);
-        std::string v = validate(s, lines, e.log[(size_t)bi].line);
+        std::string v = validate(s, lines, e.log[(size_t)bi].line, opt);
         st.count("searches");
         if (!v.empty()) { err = "search " + std::to_string(idx) + " (" + s.go + " on " + s.fen + "): " + v; break; }
     }
